@@ -445,6 +445,9 @@ class BeanHarness(object):
         self.version, self.shape, self.n = version, shape, n
         self.replies = {}
         self.finished = False
+        # whatever the translator keeps per process rather than per class (e.g. about `object`) is warmed up outside the explored execution,
+        # so that the first execution and its replays take the same steps; what it keeps per class is cold: the classes are new each time
+        self._jc.dump(self.build()())
 
     def build(self):
         import sys
@@ -495,7 +498,8 @@ class BeanHarness(object):
             form_ok = isinstance(got, dict) and got.get("id") == n and (("jsonrpc" in got) == (n != 1 and self.version >= 2))
             if res != [bean, {"k": bean}] or not form_ok:
                 v.append(("C13/reply-depends-on-concurrent-request", "request %d (result: two instances of a fresh %s class) served concurrently with %d other(s) answered %r" % (n, self.shape, self.n - 1, self.replies.get(n))))
-        return (tuple(sorted((k, str(x)) for k, x in self.replies.items())), v)
+        # canonical outcome: the order of the members of a dumped object follows set iteration order, which is not part of the property
+        return (tuple(sorted((k, json.dumps(parsed(x), sort_keys=True) if isinstance(x, str) else str(x)) for k, x in self.replies.items())), v)
 
 
 def make_beans(version, shape, n):
